@@ -53,6 +53,7 @@ Definition cun (k:nat) (f:bool -> N -> sval) (v:sval) : option (option sval) :=
 Definition nul (f:sval) (v:sval) : option (option sval) := Some (Some f).
 
 Definition maxw (k:nat) : N := 2^(bitsN k) - 1.
+Definition amount_k (k:nat) : nat := if Nat.leb k 4 then 2 else 3.   (* type of shift / rotate amounts: u4 up to 16 bits, u8 above *)
 Definition median3 (a b c:N) : N := N.max (N.min a b) (N.min (N.max a b) c).
 
 (* result Some (Some v): value; Some None: jet fails; None: input is not of the jet's source type *)
@@ -100,8 +101,42 @@ Definition jet_fam (base:string) (nums:list nat) : option (sval -> option (optio
     else if String.eqb base "xor_xor" then Some (tern k (fun a b c => enc k (N.lxor (N.lxor a b) c)))
     else if String.eqb base "maj" then Some (tern k (fun a b c => enc k (N.lor (N.lor (N.land a b) (N.land a c)) (N.land b c))))
     else if String.eqb base "ch" then Some (tern k (fun a b c => enc k (N.lor (N.land a b) (N.land (maxw k - a) c))))
+    else if String.eqb base "left_shift" then Some (fun v => match v with VP x y => match dec (amount_k k) x, dec k y with
+        | Some a, Some b => Some (Some (enc k (N.shiftl b a))) | _, _ => None end | _ => None end)
+    else if String.eqb base "right_shift" then Some (fun v => match v with VP x y => match dec (amount_k k) x, dec k y with
+        | Some a, Some b => Some (Some (enc k (N.shiftr b a))) | _, _ => None end | _ => None end)
+    else if String.eqb base "left_rotate" then Some (fun v => match v with VP x y => match dec (amount_k k) x, dec k y with
+        | Some a, Some b => let r := a mod (bitsN k) in
+            Some (Some (enc k (N.lor (N.shiftl b r) (N.shiftr b (bitsN k - r))))) | _, _ => None end | _ => None end)
+    else if String.eqb base "right_rotate" then Some (fun v => match v with VP x y => match dec (amount_k k) x, dec k y with
+        | Some a, Some b => let r := a mod (bitsN k) in
+            Some (Some (enc k (N.lor (N.shiftr b r) (N.shiftl b (bitsN k - r))))) | _, _ => None end | _ => None end)
+    else if String.eqb base "left_shift_with" then Some (fun v => match v with VP c (VP x y) => match decb c, dec (amount_k k) x, dec k y with
+        | Some c, Some a, Some b => let a' := N.min a (bitsN k) in
+            Some (Some (enc k (N.shiftl b a' + (if c then 2^a' - 1 else 0)))) | _, _, _ => None end | _ => None end)
+    else if String.eqb base "right_shift_with" then Some (fun v => match v with VP c (VP x y) => match decb c, dec (amount_k k) x, dec k y with
+        | Some c, Some a, Some b => let a' := N.min a (bitsN k) in
+            Some (Some (enc k (N.shiftr b a' + (if c then (2^a' - 1) * 2^(bitsN k - a') else 0)))) | _, _, _ => None end | _ => None end)
     else None
     end
+  | [wa; wb] =>
+    match log2w wa, log2w wb with
+    | Some ka, Some kb =>
+      let A := bitsN ka in let B := bitsN kb in
+      if String.eqb base "leftmost" then Some (un ka (fun a => enc kb (N.shiftr a (A - B))))
+      else if String.eqb base "rightmost" then Some (un ka (fun a => enc kb a))
+      else if String.eqb base "left_pad_low" then Some (un ka (fun a => enc kb a))
+      else if String.eqb base "left_pad_high" then Some (un ka (fun a => enc kb (a + (2^B - 2^A))))
+      else if String.eqb base "right_pad_low" then Some (un ka (fun a => enc kb (N.shiftl a (B - A))))
+      else if String.eqb base "right_pad_high" then Some (un ka (fun a => enc kb (N.shiftl a (B - A) + (2^(B - A) - 1))))
+      else if String.eqb base "left_extend" then Some (un ka (fun a => enc kb (if N.testbit a (A - 1) then a + (2^B - 2^A) else a)))
+      else if String.eqb base "right_extend" then Some (un ka (fun a => enc kb (N.shiftl a (B - A) + (if N.odd a then 2^(B - A) - 1 else 0))))
+      else if String.eqb base "full_left_shift" then Some (fun v => match v with VP x y => match dec ka x, dec kb y with
+          | Some a, Some b => let z := a * 2^B + b in Some (Some (VP (enc kb (N.shiftr z A)) (enc ka z))) | _, _ => None end | _ => None end)
+      else if String.eqb base "full_right_shift" then Some (fun v => match v with VP y x => match dec kb y, dec ka x with
+          | Some b, Some a => let z := b * 2^A + a in Some (Some (VP (enc ka (N.shiftr z B)) (enc kb z))) | _, _ => None end | _ => None end)
+      else None
+    | _, _ => None end
   | [] =>
     if String.eqb base "verify" then Some (fun v => match decb v with Some true => Some (Some VU) | Some false => Some None | None => None end)
     else None
